@@ -164,18 +164,28 @@ def _conj_vars(c, cj):
     return out
 
 
+def _grid_cut(ep, now):
+    """The timestep an interaction landed on: the latest grid point <= the environment's clock
+    (the clock itself may have been dragged forward by an event delivered too early)."""
+    cut = None
+    for t in ep.T:
+        if bool(t <= now):
+            cut = t
+    return cut if cut is not None else now
+
+
 def _run(ep, upto=None):
     """reset + all steps; returns per-interaction outputs and the pc length at that point."""
     env = ep.env
     c = ep.c
     outs = []
     env.reset(fold=ep.fold_name)
-    outs.append((_outputs(ep, None), len(c.pc) if c.mode == "sym" else 0, env.now()))
+    outs.append((_outputs(ep, None), len(c.pc) if c.mode == "sym" else 0, _grid_cut(ep, env.now())))
     k = 0
     while not env._done and k < ep.N + 1:
         so = env.step(ep.action(k))
         k += 1
-        outs.append((_outputs(ep, (so[1],)), len(c.pc) if c.mode == "sym" else 0, env.now()))
+        outs.append((_outputs(ep, (so[1],)), len(c.pc) if c.mode == "sym" else 0, _grid_cut(ep, env.now())))
     return outs
 
 
